@@ -150,7 +150,7 @@ class C03(Check):
         # capacity changes / unblocking / budget adjustments made BETWEEN two consecutive runs must wake parts up too
         specs += [S.with_splits(x) for x in (S.RES(K), S.BLOCK(K), S.BUDGET(K))]
         # sinks with stretched / per-part cycle times; devices created while running with a blocked device as upstream
-        specs += [S.LOOP(K), S.LOOP(K, delay=0)]
+        specs += [S.LOOP(K), S.LOOP(K, delay=0), S.RES_NOISE(K)]
         specs += [S.SINKOFF(K), S.LATE(K, horizon=4, name='c03', ops=[['create', 3, 4], ['create', 10, 11], ['create', 12, 13, 14],
                                                                      ['block', 'M1', True]])]
         jobs = _line_jobs(specs, ['wakeup'], tier)
